@@ -458,6 +458,39 @@ func main() {
 	sort.Strings(ap)
 	sb.WriteString("def pkgVarWritesOutsideInit : List String := " + leanStrs(pw) + "\n")
 	sb.WriteString("def pkgSlicesUsedAsAppendPrefix : List String := " + leanStrs(ap) + "\n")
+	// sub-packages (sexp): every package-level variable at all - there is no reason for any state there
+	subMatches, _ := filepath.Glob(filepath.Join(repo, "*", "*.go"))
+	sort.Strings(subMatches)
+	var subVars []string
+	for _, m := range subMatches {
+		if strings.HasSuffix(m, "_test.go") || strings.Contains(m, "/compat/") || strings.Contains(m, "/.git/") {
+			continue
+		}
+		f, err := parser.ParseFile(fset, m, nil, 0)
+		if err != nil {
+			continue
+		}
+		for _, d := range f.Decls {
+			if gd, ok := d.(*ast.GenDecl); ok && gd.Tok == token.VAR {
+				for _, sp := range gd.Specs {
+					vs := sp.(*ast.ValueSpec)
+					for i, nm := range vs.Names {
+						init := "-"
+						if i < len(vs.Values) {
+							if ce, ok := vs.Values[i].(*ast.CallExpr); ok {
+								init = exprName(ce.Fun)
+							} else {
+								init = "literal"
+							}
+						}
+						subVars = append(subVars, f.Name.Name+"."+nm.Name+"="+init)
+					}
+				}
+			}
+		}
+	}
+	sort.Strings(subVars)
+	sb.WriteString("def subPackageVars : List String := " + leanStrs(subVars) + "\n")
 	sort.Strings(pkgVarsByCall)
 	sb.WriteString("def pkgVarsInitialisedByCall : List String := " + leanStrs(pkgVarsByCall) + "\n")
 
